@@ -42,7 +42,7 @@ def read_events(path):
     return events
 
 
-def run_daemon(config_text, suffix, ready, signal_after=None, timeout=25.0, args=(), wait_ready=8.0, config_name=None):
+def run_daemon(config_text, suffix, ready, signal_after=None, timeout=25.0, args=(), wait_ready=8.0, config_name=None, inject=None):
     """Start the daemon on a generated configuration.
 
     ready(events) -> bool decides when the services are considered up; then, after
@@ -58,6 +58,8 @@ def run_daemon(config_text, suffix, ready, signal_after=None, timeout=25.0, args
         evfile = os.path.join(tmp, "events.jsonl")
         errfile = os.path.join(tmp, "stderr.txt")
         env = dict(os.environ, VERIF_EVENT_FILE=evfile, PYTHONUNBUFFERED="1")
+        if inject:
+            env["VERIF_DAEMON_INJECT"] = json.dumps(inject)
         t0 = time.monotonic()
         with open(errfile, "w") as err:
             proc = subprocess.Popen([core.PYTHON, "-m", "cobald.daemon", cfg, *args], env=env, stdout=subprocess.DEVNULL, stderr=err, cwd=tmp)
